@@ -5,15 +5,16 @@ set -u
 export GOFLAGS=-mod=mod GOPROXY=off GOSUMDB=off GOTOOLCHAIN=local
 id="$1"; k="$2"; pkgdir="$3"; demore="$4"; exre="$5"; shift 5
 checks="${*:-$id}"
-src=/tmp/mutout/$id/m$k
-wt=/tmp/sc-$id-$k
-log=/verif/out/seedcheck-$id-m$k.log
+round="${ROUND:-1}"
+if [ "$round" = 1 ]; then src=/tmp/mutout/$id/m$k; name=$id-m$k; else src=/tmp/mutout$round/$id/m$k; name=$id-r${round}m$k; fi
+wt=/tmp/sc-$name
+log=/verif/out/seedcheck-$name.log
 : > $log
 git -C /repo worktree add -q --detach $wt HEAD || exit 3
 if [[ "$pkgdir" == sdk/* ]]; then mod=$wt/sdk; pkg=./${pkgdir#sdk/}; else mod=$wt; pkg=./$pkgdir; fi
 cp $src/demo_test.go $wt/$pkgdir/zz_seed_demo_test.go
 (cd $mod && go1.27.0 test -vet=off -count=1 -run "$demore" $pkg) >> $log 2>&1; demo_clean=$?
-if ! git -C $wt apply $src/patch.diff >> $log 2>&1; then echo "$id m$k PATCH-FAILED" | tee -a /verif/out/seedcheck.log; git -C /repo worktree remove --force $wt; exit 3; fi
+if ! git -C $wt apply $src/patch.diff >> $log 2>&1; then echo "$name PATCH-FAILED" | tee -a /verif/out/seedcheck.log; git -C /repo worktree remove --force $wt; exit 3; fi
 (cd $mod && go1.27.0 test -vet=off -count=1 -run "$demore" $pkg) >> $log 2>&1; demo_mut=$?
 rm -f $wt/$pkgdir/zz_seed_demo_test.go
 ex=skipped
@@ -24,15 +25,15 @@ if [ "$exre" != NONE ]; then
 fi
 res=""
 for c in $checks; do
-  (cd /verif && VERIF_REPO=$wt VERIF_OUTTAG=seed$id$k ./check $c quick) > $log.check-$c 2>&1; rc=$?
+  (cd /verif && VERIF_REPO=$wt VERIF_OUTTAG=seed$name ./check $c quick) > $log.check-$c 2>&1; rc=$?
   cls=$(grep -o '^  \[[^]]*\]' $log.check-$c | sort | uniq -c | tr '\n' ' ' | cut -c1-400)
   res="$res $c:rc=$rc[$cls]"
-  rm -rf /verif/out/$c/quick-seed$id$k
+  rm -rf /verif/out/$c/quick-seed$name
 done
 git -C /repo worktree remove --force $wt
-mkdir -p /verif/seeded/$id-m$k
-cp $src/patch.diff $src/demo_test.go /verif/seeded/$id-m$k/
-python3 - "$src/meta.json" "/verif/seeded/$id-m$k/meta.json" "$demo_clean" "$demo_mut" "$ex" "$res" "$pkgdir" "$demore" "$exre" <<'PY'
+mkdir -p /verif/seeded/$name
+cp $src/patch.diff $src/demo_test.go /verif/seeded/$name/
+python3 - "$src/meta.json" "/verif/seeded/$name/meta.json" "$demo_clean" "$demo_mut" "$ex" "$res" "$pkgdir" "$demore" "$exre" <<'PY'
 import json,sys
 m=json.load(open(sys.argv[1]))
 m["confirmed_by_lead"]={"demo_on_unchanged_tree_rc":int(sys.argv[3]),"demo_with_patch_rc":int(sys.argv[4]),"existing_tests_with_patch_rc":sys.argv[5],
@@ -40,4 +41,4 @@ m["confirmed_by_lead"]={"demo_on_unchanged_tree_rc":int(sys.argv[3]),"demo_with_
  "base_commit":__import__("subprocess").check_output(["git","-C","/repo","rev-parse","--short","HEAD"]).decode().strip()}
 json.dump(m,open(sys.argv[2],"w"),indent=1)
 PY
-echo "$(date +%H:%M:%S) $id m$k demo_clean=$demo_clean demo_mut=$demo_mut existing=$ex checks:$res" | tee -a /verif/out/seedcheck.log
+echo "$(date +%H:%M:%S) $name demo_clean=$demo_clean demo_mut=$demo_mut existing=$ex checks:$res" | tee -a /verif/out/seedcheck.log
